@@ -226,3 +226,86 @@ Section List.
       repeat (rewrite ?app_length; cbn [length]). fold (cl_bytes (u2 :: us)). unfold k, nnat. lenfix. lia.
   Qed.
 End List.
+
+(* ---- the list theorem ---------------------------------------------------------------------------------------------------------------------- *)
+Lemma cl_vals_length us : forall i, length (cl_vals i us) = length us.
+Proof.
+  induction us as [|u us IH]; intros i; [reflexivity|]. destruct us as [|u2 us]; [reflexivity|].
+  rewrite cl_vals_cons2. cbn [length]. rewrite IH. reflexivity.
+Qed.
+
+(* facts about the list after a run of values whose spans follow one another *)
+Lemma ct_addvs_facts us : forall i l, us <> [] -> CtI i l -> ct_lasthval l = pf0 \/ pf_end (ct_lasthval l) <= i ->
+  let C := ct_addvs l (cl_vals i us) in
+  ct_n C = ct_n l + nnat (length us) /\ length (ct_vals C) = length (ct_vals l) /\
+  (forall j, (j < N.to_nat (ct_n l))%nat -> nth j (ct_vals C) pfrom0 = nth j (ct_vals l) pfrom0) /\
+  (forall j, (j < length us)%nat -> (N.to_nat (ct_n l) + j < length (ct_vals l))%nat ->
+     nth (N.to_nat (ct_n l) + j) (ct_vals C) pfrom0 = nth j (cl_vals i us) pfrom0) /\
+  ct_lasthval C = (if (ct_n l =? 0) || pf_empty (ct_lasthval l) then mkpf i (nnat (length (cl_bytes us)))
+                   else mkpf (po (ct_lasthval l)) (i + nnat (length (cl_bytes us)) - po (ct_lasthval l))).
+Proof.
+  induction us as [|u us IH]; intros i l Hne Hl Hlh0; [congruence|].
+  assert (Hb : pf_end (ct_lasthval l) <= pf_end (fb_v (uval HdrContact i (nnat (length u)))))
+    by (destruct Hl as (_ & _ & Hx); unfold uval, pf_end in *; cbn [fb_v po pl]; lia).
+  destruct us as [|u2 us].
+  - cbn [cl_vals ct_addvs cl_bytes length]. cbv zeta.
+    destruct (ct_addv_facts i l (uval HdrContact i (nnat (length u))) false Hl Hb eq_refl) as (F1 & F2 & F3 & F4 & F5 & F6).
+    split; [rewrite F1; unfold nnat; lia|]. split; [exact F2|]. split.
+    + intros j Hj. destruct (le_lt_dec (length (ct_vals l)) j) as [Hge|Hlt]; [rewrite !nth_overflow by (try rewrite F2; lia); reflexivity|].
+      rewrite (F6 j ltac:(lia) Hlt). replace (j =? N.to_nat (ct_n l))%nat with false by lia. reflexivity.
+    + split.
+      * intros j Hj Hc. cbn [length] in Hj. apply Nat.lt_1_r in Hj. subst j. rewrite Nat.add_0_r in *. rewrite (F6 (N.to_nat (ct_n l)) ltac:(lia) Hc), Nat.eqb_refl. reflexivity.
+      * rewrite F5. unfold uval, pf_end. cbn [fb_v po pl]. rewrite app_length. cbn [length].
+        destruct ((ct_n l =? 0) || pf_empty (ct_lasthval l)); f_equal; unfold nnat; lia.
+  - rewrite cl_vals_cons2, cl_bytes_cons2.
+    assert (Eadd : ct_addvs l (uval HdrContact i (nnat (length u)) :: cl_vals (i + nnat (length u) + 3) (u2 :: us))
+                   = ct_addvs (ct_addv l (uval HdrContact i (nnat (length u))) true) (cl_vals (i + nnat (length u) + 3) (u2 :: us))).
+    { destruct (cl_vals_cons (i + nnat (length u) + 3) u2 us) as (v2 & vs2 & Ev). rewrite Ev. reflexivity. }
+    cbv zeta. rewrite Eadd. clear Eadd.
+    destruct (ct_addv_facts i l (uval HdrContact i (nnat (length u))) true Hl Hb eq_refl) as (F1 & F2 & F3 & F4 & F5 & F6).
+    set (l1 := ct_addv l (uval HdrContact i (nnat (length u))) true) in *.
+    assert (Hl1 : CtI (i + nnat (length u) + 3) l1).
+    { split; [exact F3|]. split; [apply F4; reflexivity|]. rewrite F5.
+      destruct ((ct_n l =? 0) || pf_empty (ct_lasthval l)); unfold uval, pf_end in *; cbn [fb_v po pl]; destruct Hl as (_ & _ & Hx); unfold pf_end in Hx; lia. }
+    destruct (IH (i + nnat (length u) + 3) l1 ltac:(discriminate) Hl1 ltac:(right; apply Hl1)) as (G1 & G2 & G3 & G4 & G5).
+    split; [rewrite G1, F1; cbn [length]; unfold nnat; lia|]. split; [rewrite G2, F2; reflexivity|]. split; [|split].
+    + intros j Hj. rewrite G3 by (rewrite F1; lia).
+      destruct (le_lt_dec (length (ct_vals l)) j) as [Hge|Hlt]; [rewrite !nth_overflow by (try rewrite F2; lia); reflexivity|].
+      rewrite (F6 j ltac:(lia) Hlt). replace (j =? N.to_nat (ct_n l))%nat with false by lia. reflexivity.
+    + intros j Hj Hc. destruct j as [|j].
+      * rewrite Nat.add_0_r in *. cbn [nth]. rewrite G3 by (rewrite F1; lia). rewrite (F6 (N.to_nat (ct_n l)) ltac:(lia) Hc), Nat.eqb_refl. reflexivity.
+      * cbn [nth]. replace (N.to_nat (ct_n l) + S j)%nat with (N.to_nat (ct_n l1) + j)%nat by (rewrite F1; lia).
+        apply G4; [cbn [length] in *; lia|rewrite F1, F2; lia].
+    + rewrite G5, F1, F5.
+      replace (ct_n l + 1 =? 0) with false by lia. cbn [orb].
+      assert (Hne1 : pf_empty (if (ct_n l =? 0) || pf_empty (ct_lasthval l) then fb_v (uval HdrContact i (nnat (length u)))
+                               else mkpf (po (ct_lasthval l)) (pf_end (fb_v (uval HdrContact i (nnat (length u)))) - po (ct_lasthval l))) = false).
+      { destruct Hl as (_ & _ & Hx). destruct ((ct_n l =? 0) || pf_empty (ct_lasthval l));
+          unfold pf_empty, uval, pf_end in *; cbn [fb_v po pl]; lia. }
+      rewrite Hne1. cbn [length]. rewrite app_length. cbn [length]. fold (cl_bytes (u2 :: us)).
+      destruct ((ct_n l =? 0) || pf_empty (ct_lasthval l)); unfold uval, pf_end; cbn [fb_v po pl]; f_equal; unfold nnat; lia.
+Qed.
+
+Theorem contact_list_spec us (junk : list byte) x tail n : us <> [] -> Forall (Forall uchar) us -> is_sp x = false ->
+  let i := nnat (length junk) in
+  let vs := cl_vals i us in
+  exists C, parse_all_contacts (junk ++ cl_bytes us ++ CR :: LF :: x :: tail) i (contacts_init (repeat pfrom0 n))
+            = Done (i + nnat (length (cl_bytes us)) + 2) EOk C /\
+    ct_n C = nnat (length us) /\
+    (forall j, (j < length us)%nat -> (j < n)%nat -> nth j (ct_vals C) pfrom0 = nth j vs pfrom0) /\
+    ct_lasthval C = mkpf i (nnat (length (cl_bytes us))).
+Proof.
+  intros Hne Hall Hx i vs. set (l0 := contacts_init (repeat pfrom0 n)).
+  assert (Hl0 : CtI i l0).
+  { unfold CtI, l0, contacts_init. split; [split; [intros j _; apply nth_repeat|reflexivity]|]. split.
+    - rewrite ct_sel_eq. destruct (_ <=? 0); [reflexivity|apply nth_repeat].
+    - unfold pf_end. cbn. lia. }
+  exists (ct_addvs l0 vs). unfold parse_all_contacts. subst i. rewrite FLineSpec.parse_at.
+  rewrite (clist_run us (rev junk) (nnat (length junk)) l0 x tail Hne Hall Hx ltac:(now rewrite rev_length) Hl0).
+  split; [reflexivity|].
+  destruct (ct_addvs_facts us (nnat (length junk)) l0 Hne Hl0 (or_introl eq_refl)) as (G1 & G2 & G3 & G4 & G5). fold vs in G1, G2, G3, G4, G5.
+  split; [rewrite G1; reflexivity|]. split.
+  - intros j Hj Hjn. pose proof (G4 j Hj) as A. change (ct_n l0) with 0 in A. cbn [N.to_nat Nat.add] in A. apply A.
+    unfold l0, contacts_init. cbn [ct_vals]. rewrite repeat_length. exact Hjn.
+  - rewrite G5. reflexivity.
+Qed.
